@@ -13,6 +13,7 @@ import (
 	vcrdt "github.com/emitter-io/emitter/verif/drivers/crdt"
 	"github.com/emitter-io/emitter/verif/drivers/history"
 	"github.com/emitter-io/emitter/verif/drivers/mqttc"
+	"github.com/emitter-io/emitter/verif/drivers/peerq"
 	"github.com/emitter-io/emitter/verif/drivers/session"
 	"github.com/emitter-io/emitter/verif/drivers/trie"
 	"github.com/emitter-io/emitter/verif/drivers/wq"
@@ -33,6 +34,7 @@ var checks = map[string]func(*core.Ctx){
 	"C16": mqttc.Run,
 	"C17": adapters.Run,
 	"C18": session.RunC18,
+	"C19": peerq.Run,
 }
 
 func main() {
